@@ -262,7 +262,7 @@ HARNESSES = {'roundtrip': h_roundtrip, 'parser_symbolic_ids': h_parser_symbolic_
 
 def jobs(tier):
     out = []
-    shapes = [(2, 2), (1, 2), (2, 1), (2, 3)] if tier == 'quick' else [(2, 2), (1, 2), (2, 1), (2, 3), (3, 2), (1, 1)]
+    shapes = [(2, 2), (1, 2), (2, 1), (2, 3)] if tier == 'quick' else [(2, 2), (1, 2), (2, 1), (2, 3), (3, 2), (1, 1), (1, 3), (3, 1), (1, 4), (3, 3)]
     for nr, nc in shapes:
         for idk in ID_MENUS:
             for md in (False, True):
@@ -275,6 +275,7 @@ def jobs(tier):
     out.append(('convert_cli', (2, 2)))
     if tier != 'quick':
         out.append(('convert_cli', (3, 2)))
+        out.append(('convert_cli', (2, 3)))
     return out
 
 
@@ -289,7 +290,7 @@ META = {
                    "--to-tsv and back with --process-obs-metadata (file I/O stubbed). 1xM, Nx1 and general shapes, sorted and reordered tables.",
     'encoded': {'biom/table.py': ['delimited_self', 'to_tsv', '_extract_data_from_tsv', 'from_tsv', '_to_dense', '_iter_obs'],
                 'biom/cli/table_converter.py': ['_convert']},
-    'bounds': {'quick': {'shapes': '2x2, 1x2, 2x1', 'symbolic ids': '|id| <= 4 printable ASCII'}, 'thorough': {'shapes': '+ 2x3, 3x2, 1x1'}},
+    'bounds': {'quick': {'shapes': '2x2, 1x2, 2x1, 2x3', 'symbolic ids': '|id| <= 4 printable ASCII'}, 'thorough': {'shapes': '+ 3x2, 1x1, 1x3, 3x1, 1x4, 3x3'}},
     'outside': ['str(float64) re-parses to the same double (shortest-repr axiom of CPython/numpy dtoa -- not encodable here)', 'gzip, real files, click argument parsing',
                 'ID text outside printable ASCII in the symbolic-ID step (the concrete menus include non-ASCII)'],
     'assumptions': ['a formatted number is one token without blanks/tabs (token axiom)', 'z3 sequence theory'],
